@@ -77,7 +77,8 @@ def build_iv_driver(ctx):
     """The three invocation checks share one extraction (coq/extract/ExtractIV.v): before the driver is built
     every library it imports must be compiled against the current sources, whichever property is being
     checked.  Runs make under the framework's lock."""
-    targets = ['theories/Inv/LsSpec.vo', 'theories/Inv/NameSpec.vo', 'theories/Inv/PurgeSpec.vo', 'gen/Gen_Util.vo']
+    targets = ['theories/Inv/LsSpec.vo', 'theories/Inv/NameSpec.vo', 'theories/Inv/PurgeSpec.vo', 'theories/Inv/NameNewDefs.vo',
+               'gen/Gen_Util.vo']
     with common.Lock(os.path.join(common.COQ, '.lock')):
         common.refresh_coqproject()
         r = common.sh(['timeout', '900', 'make', '-j8'] + targets, cwd=common.COQ)
